@@ -164,6 +164,16 @@ static void run_case(Ctx& c, uint64_t idx) {
     if (r.coin()) qA->dissect_check(c, q, plus, (int)r.below(4), (int)r.below(3)); else qW->dissect_check(c, q, plus, (int)r.below(4), (int)r.below(3));
     if (idx % 3000 == 1) c.sample("list", esc(key.substr(0, 200)));
 }
-static Monitor mon = {"query", "C17: query compose/dissect round trip, capacities, legal characters, INT_MAX guards", "C17", ncases, run_case, nullptr};
+static void fuzz_one(Ctx& c, const unsigned char* d, size_t n) {
+    if (!qA) { qA = new Q<ApiA>(); qW = new Q<ApiW>(); }
+    if (n < 1) return; if (n > 200) n = 200; unsigned f = d[0]; Str s((const char*)d + 1, n - 1); for (auto& ch : s) if (!ch) ch = 'x';
+    c.distinct(hash_str(s, f));
+    int plus = f & 1, nb = (f >> 1) & 1, br = (f >> 2) & 3;
+    if (f & 16) qW->dissect_check(c, s, plus, br, (int)((f >> 5) % 3)); else qA->dissect_check(c, s, plus, br, (int)((f >> 5) % 3));
+    // the same bytes as a list: items separated by 0x01, key and value by 0x02 (no 0x02 -> NULL value)
+    QItems L; size_t a = 0; while (a <= s.size() && L.size() < 8) { size_t e = s.find('\x01', a); Str it = s.substr(a, e == Str::npos ? Str::npos : e - a); QItem q; size_t v = it.find('\x02'); q.key = it.substr(0, v); q.hasValue = v != Str::npos; if (q.hasValue) q.value = it.substr(v + 1); L.push_back(q); if (e == Str::npos) break; a = e + 1; }
+    if (f & 16) qW->compose_check(c, L, plus, nb); else qA->compose_check(c, L, plus, nb);
+}
+static Monitor mon = {"query", "C17: query compose/dissect round trip, capacities, legal characters, INT_MAX guards", "C17", ncases, run_case, nullptr, fuzz_one};
 VF_REGISTER(mon);
 }
